@@ -423,8 +423,26 @@ fn leap60_enum(_t: Tier, shard: usize, sink: &mut dyn FnMut(Reject) -> bool) {
     }
 }
 
+// ---------------------------------------------------------------- the first calls of the process (enumerated, run first)
+/// Dates whose year, day count or every field is zero-like, built before anything else in the process has built a date
+/// (the runner runs `*.first_calls` sub-checks before the witnesses and every other sub-check, on one thread): a
+/// zero-initialised memo or a lazily filled table shows on its first use, and on the keys that look like "empty"
+fn first_calls_enum(_t: Tier, shard: usize, sink: &mut dyn FnMut(Valid) -> bool) {
+    if shard != 0 {
+        return;
+    }
+    for (y, m, d) in [(0i64, 3u32, 1u32), (0, 1, 1), (0, 12, 31), (1, 1, 1), (-1, 12, 31), (1900, 1, 1), (4, 2, 29), (2000, 2, 29), (1899, 12, 31)] {
+        for s in [S_TAI, S_UTC, S_GPST] {
+            if !sink(Valid { y, m, d, hh: 0, mm: 0, ss: 0, ns: 0, s, full: true }) {
+                return;
+            }
+        }
+    }
+}
+
 pub fn subs() -> Vec<Box<dyn DynSub>> {
     vec![
+        sub(Sub { name: "c08.first_calls", source: Source::Enum(first_calls_enum, |_| true), oracle: valid_oracle, known: no_known, hang_is_violation: false }),
         sub(Sub { name: "c08.all_days", source: Source::Enum(valid_enum, |_| true), oracle: valid_oracle, known: no_known, hang_is_violation: false }),
         sub(Sub { name: "c08.generated_times", source: Source::Gen(valid_gen_strategy, 800_000, 20_000_000), oracle: valid_oracle, known: no_known, hang_is_violation: false }),
         sub(Sub { name: "c08.second_60", source: Source::Enum(leap60_enum, |_| true), oracle: reject_oracle, known: reject_known, hang_is_violation: false }),
